@@ -254,6 +254,8 @@ class Run(object):
         self.events = []         # ('saw', k, [recipient numbers]) when the relay starts an attempt, ('out', k, {number: verdict}) when it answers
         self.gave_up = set()     # k: the backoff function answered None
         self.recipients_of = {}  # k -> recipient numbers the message was accepted with
+        self.backoff_asked = {}     # k -> the attempts argument of every call of the backoff function for message k, in order
+        self.pre_att = {}           # k -> the attempt counter a preloaded message started with
         self.incr_pending = set()   # k: increment_attempts done, the retry label not logged yet
         self.actions = []
         self.kid = {}            # store id -> k
@@ -464,6 +466,9 @@ def run_case(case, model):
 
         def backoff(env, attempts):
             w = table[min(attempts - 1, len(table) - 1)] if attempts >= 1 else table[0]
+            nums = rnums(env.recipients)
+            if nums and nums[0] != 999:
+                R.backoff_asked.setdefault(nums[0] // 10, []).append(attempts)
             R.backoff_of[gevent.getcurrent()] = w
             if w is None:
                 R.gave_up.add(getattr(env, 'k', -1))
@@ -690,6 +695,7 @@ def run_case(case, model):
             R.idk[k] = id
             # a message the storage held before this queue started may have been attempted before (QM.startAt): its counter goes on
             pre_att = (k * 7 + case.get('seed', 0)) % 3
+            R.pre_att[k] = pre_att
             for _ in range(pre_att):
                 orig_incr(id)
             R.labels.append('PRE%d:%d' % (k, 3))
@@ -854,6 +860,16 @@ def run_case(case, model):
             hits.append(hit('c03.second-attempt-while-one-is-in-flight', 'a second delivery attempt of a message was started while one was still in flight',
                             observed={'message': R.double_attempts[0][0], 'at': R.double_attempts[0][1]}))
         hits.extend(ledger_monitors(R, store, pools))
+        # the backoff function is asked about the n-th retry of a message with the number of attempts made so far (the counter the
+        # storage holds, incremented once per _retry_later): base + 1, base + 2, ... (the hypothesis `obeys` of attempts_need_backoff /
+        # attempts_bounded; seeded change C12-x asked about attempt 1 every time on the partial-delivery path)
+        for k, asked in sorted(R.backoff_asked.items()):
+            base = R.pre_att.get(k, 0)
+            want = [base + n + 1 for n in range(len(asked))]
+            if asked != want:
+                hits.append(hit('c12.backoff-asked-about-the-wrong-attempt', 'the backoff function was not asked about attempt base+1, base+2, ... of a message '
+                                '(the retry schedule is stretched, cut, or never ends)', observed={'message': k, 'asked': asked}, expected=want))
+                break
         # ---- model replay
         pre = []
         chunks = []
